@@ -1,7 +1,7 @@
 (** Scalar impls of src/impls.rs:62-469: (), bool, the four integer macros and their 24
     instantiations, f32/f64, char, String. Also [FromStr] of the key / CS element types. *)
 From Coq Require Import DecimalString.
-From Deserr Require Import Base Pointer Kinds Value Prog Utf8 Floats.
+From Deserr Require Import Base Pointer Kinds Value Prog Utf8 Fround.
 Local Open Scope string_scope.
 
 Inductive intw := W8 | W16 | W32 | W64 | W128 | WSize.
@@ -57,17 +57,17 @@ Definition float_accepted : list vkind := [KFloat; KInteger; KNegativeInteger].
 
 Definition deser_f64 (a : N) (v : value) (l : vpr) : prog res :=
   match v with
-  | VInt x => Ret (ROk (OF64 (f64_bits_of_Z (Z.of_N x))))
-  | VNeg x => Ret (ROk (OF64 (f64_bits_of_Z x)))
+  | VInt x => Ret (ROk (OF64 (f64_of_Z (Z.of_N x))))
+  | VNeg x => Ret (ROk (OF64 (f64_of_Z x)))
   | VFloat b => Ret (ROk (OF64 (f64_canon b)))
   | _ => fail_with a (IncorrectValueKind v float_accepted) l
   end.
 
 Definition deser_f32 (a : N) (v : value) (l : vpr) : prog res :=
   match v with
-  | VInt x => Ret (ROk (OF32 (f32_bits_of_Z (Z.of_N x))))
-  | VNeg x => Ret (ROk (OF32 (f32_bits_of_Z x)))
-  | VFloat b => Ret (ROk (OF32 (f32_bits_of_f64_bits b)))
+  | VInt x => Ret (ROk (OF32 (f32_of_Z (Z.of_N x))))
+  | VNeg x => Ret (ROk (OF32 (f32_of_Z x)))
+  | VFloat b => Ret (ROk (OF32 (f32_of_f64 b)))
   | _ => fail_with a (IncorrectValueKind v float_accepted) l
   end.
 
